@@ -360,7 +360,7 @@ sys.exit(1 if diff > 1e-9 else 0)
 def classify(mod, ops, recs, out, ref):
     """All defects of this property found while the check was built are fixed in
     /repo; whatever fails now gets a key of its own."""
-    kinds = [o[3] for o in ops if o[0] == 'seed' and o[3] != 'good']
+    kinds = [o[3] for o in ops if o[0] == 'seed' and o[3] != 'good'] + [o[0] for o in ops if o[0] == 'overwrite']
     if not kinds:
         return None                       # no damaged file involved: C07's business
     return 'C08:%s:unclassified:%s' % (mod, '/'.join(o[0] + (':' + o[3] if o[0] == 'seed' else '') for o in ops))
@@ -370,15 +370,32 @@ WHAT = {}
 
 
 def gen_damage_history(ad, rng, L):
+    """A random history in which files appear damaged, and files that exist (put
+    there as good files, or saved / loaded by an earlier call) are later
+    overwritten in place."""
     ops = []
+    known = []          # (directory, key) of files that may exist
     for op in ad.gen_history(rng, L):
-        if op[0] == 'seed' and rng.random() < 0.7:
-            op = (op[0], op[1], op[2], ad.DAMAGE_KINDS[rng.integers(len(ad.DAMAGE_KINDS))])
+        if op[0] == 'seed':
+            known.append((op[1], op[2]))
+            if rng.random() < 0.6:
+                op = (op[0], op[1], op[2], ad.DAMAGE_KINDS[rng.integers(len(ad.DAMAGE_KINDS))])
         if op[0] == 'call' and op[1].get('bd') == H.BADDIR:
             op = ('call', dict(op[1], bd=1))
         if op[0] == 'setdir' and op[1] == H.BADDIR:
             continue
         ops.append(op)
+        if op[0] == 'call' and op[1].get('bd') in (1, 2):
+            known.append((op[1]['bd'], ad.call_key(op[1])))
+            if rng.random() < 0.3:
+                # the same request again: from memory (after an overwrite: of what?) or from disk
+                ops.append(('call', dict(op[1], seed=int(rng.integers(1 << 30)))))
+        if known and rng.random() < 0.2:
+            d, key = known[rng.integers(len(known))]
+            ops.append(('overwrite', d, key))
+            for c in [o[1] for o in ops if o[0] == 'call'][-1:]:
+                if rng.random() < 0.6:
+                    ops.append(('call', dict(c, seed=int(rng.integers(1 << 30)))))
     return ops
 
 
@@ -403,6 +420,80 @@ def directed(mod, rng):
            'rbasex': (6, 4, 0, 1)}.get(mod)
     if big is not None:
         S.append([('seed', 1, big, 'shape'), ('call', call)])
+        S.append([('seed', 1, big, 'shapebig'), ('call', call), ('remove', 1, big), ('call', call)])
+    S += two_damaged(mod, rng, call)
+    S += overwritten_after_load(mod, rng, call, key, big)
+    return S
+
+
+def sized(mod, call, size):
+    """(the request `call` at another size, key of the file that request saves)"""
+    if mod == 'rbasex':
+        # image (9, 9): rmax 'MIN' = 4 about the centre, explicit 3 otherwise
+        c = dict(call, rmax={4: 0, 3: 1}[size])
+        return c, (size, c['order'], int(bool(c['odd'] or c['order'] % 2)), int(c['direction'] == 'inverse'))
+    c = dict(call, n=size)
+    return c, H.ADAPTERS[mod].call_key(None, c)
+
+
+def two_damaged(mod, rng, call):
+    """Two unusable candidate files at once, for the methods that choose among
+    several files of a directory: a warm-up request (same method, smaller), then
+    a directory holding a valid .npy of the wrong shape and a file that cannot be
+    parsed, both with names that promise enough for the request (both
+    assignments of the two names, so both glob orders), the request, removal of
+    both files, the request again (with and without disk cache)."""
+    if mod == 'linbasex':
+        return []           # exact file name only: never more than one candidate
+    S = []
+    sd = lambda: int(rng.integers(1 << 30))      # noqa
+    if mod == 'rbasex':
+        warm, _ = sized(mod, dict(call, bd=None), 3)
+        req = dict(call, rmax=0)
+        k1 = (5, req['order'], 0, 1)
+        k2 = (6, req['order'], 0, 1)
+    else:
+        warm, _ = sized(mod, dict(call, bd=None), 5)
+        req, _ = sized(mod, call, 8)
+        _, k1 = sized(mod, call, 9)
+        _, k2 = sized(mod, call, 12)
+    kinds = ['garbage', 'empty', 'trunc', 'zip']
+    for bad in kinds:
+        for ka, kb in ((k1, k2), (k2, k1)):
+            for shp in ('shapebig', 'shape'):
+                if shp == 'shape' and bad != 'garbage':
+                    continue
+                S.append([('call', dict(warm, seed=sd())), ('seed', 1, ka, shp), ('seed', 1, kb, bad),
+                          ('call', dict(req, seed=sd())), ('remove', 1, ka), ('remove', 1, kb),
+                          ('call', dict(req, seed=sd())), ('call', dict(req, bd=None, seed=sd()))])
+    # two unparsable files, two wrong-shape files
+    for wa, wb in (('garbage', 'trunc'), ('shapebig', 'shapebig')):
+        S.append([('call', dict(warm, seed=sd())), ('seed', 1, k1, wa), ('seed', 1, k2, wb),
+                  ('call', dict(req, seed=sd())), ('remove', 1, k1), ('call', dict(req, seed=sd())),
+                  ('remove', 1, k2), ('call', dict(req, seed=sd()))])
+    return S
+
+
+def overwritten_after_load(mod, rng, call, key, big):
+    """A good file is loaded successfully; afterwards it is overwritten in place
+    (same inode, same length) with garbage.  Every following call must return the
+    no-disk-cache result or raise: what was loaded must not alias the file."""
+    S = []
+    sd = lambda: int(rng.integers(1 << 30))      # noqa
+    again = lambda c: ('call', dict(c, seed=sd()))      # noqa
+    keys = [key] + ([big] if big is not None and mod != 'rbasex' else [])
+    if mod == 'rbasex':
+        keys.append((6, call['order'], 0, 1))
+    for k in keys:
+        # the file is put there, loaded, overwritten; same request from memory, then without disk
+        # cache, then after dropping the memory caches (meets the garbage: raises or regenerates)
+        S.append([('seed', 1, k, 'good'), again(call), ('overwrite', 1, k), again(call),
+                  again(dict(call, bd=None)), ('cleanup', 'all') if mod in ('basex', 'daun', 'rbasex') else ('cleanup',),
+                  again(call), ('remove', 1, k), again(call)])
+    # the library's own file: saved by the first call, loaded by the second
+    cl = ('cleanup', 'all') if mod in ('basex', 'daun', 'rbasex') else ('cleanup',)
+    S.append([again(call), cl, again(call), ('overwrite', 1, key), again(call), again(dict(call, bd=None)),
+              ('remove', 1, key), again(call)])
     return S
 
 
@@ -489,7 +580,7 @@ def run(ctx):
                 kk = 'sweep/%s/%s/first=%d/second=%d' % (mod, kind, c1, c2)
                 dist[kk] = dist.get(kk, 0) + 1
         # damage histories against the state machines
-        nh, L = (14, 10) if ctx.quick else (120, 20)
+        nh, L = (24, 10) if ctx.quick else (120, 20)
         allh = {}
         for mod in MODS:
             ad = H.ADAPTERS[mod](env)
@@ -634,7 +725,10 @@ def run(ctx):
                    rule='codec: numpy.load on every prefix of files saved by numpy.save for a list of shapes + a garbage stream; handlers: '
                         'for each caching method the file its call loads is replaced by every (quick: sampled) prefix, garbage, zip prefix, '
                         'zeros, random bytes, and the call is judged against the no-disk-cache result, then repeated after the file was '
-                        're-saved by the library or removed; histories with damaged / wrong-shape files as in C07; a case is distinct by '
+                        're-saved by the library or removed; histories with damaged / wrong-shape files as in C07, with two unusable '
+                        'candidate files at once (wrong-shape valid .npy + unparsable file, both name assignments, after a warm-up call, '
+                        'then removal and the call again) and with files overwritten in place (same inode and length) AFTER they were '
+                        'loaded or saved, followed by further calls (directed + at random in the random histories); a case is distinct by '
                         '(stage, method, damage kind, outcome classes)',
                    samples=samples, input_distribution=dist, exhaustive=False, wall_impl_s=round(time.time() - t0, 1))
     ctx.assumptions += [
@@ -646,6 +740,9 @@ def run(ctx):
         'bytes were written before, and is never written in place; checked with strace on every run for the five save paths',
         'real multi-process races are only smoke-tested (thorough tier)',
         'valid-but-different files (no checksum exists) are outside the fault class, except wrong-shape files which are swept',
+        'an in-place overwrite of a basis file is, in the models, the appearance of an unparsable file under that name: the model '
+        'memory caches never alias the disk (C08_daun_disk_fault_keeps_memory); that the implementation copies what it loads is '
+        'tested by the overwrite histories, not proved',
     ]
     new = 0
     for h in hits:
